@@ -147,7 +147,7 @@ class Gen:
         ms = []
         for i in range(r.randrange(1, self.max_members + 1)):
             x = r.random()
-            if self.o['bitfields'] and x < 0.3 and kind == 'struct':
+            if self.o['bitfields'] and x < 0.3 and (kind == 'struct' or r.random() < 0.6):
                 base = r.choice(['i8', 'u8', 'i16', 'u16', 'i32', 'u32', 'i64', 'u64', 'bool'])
                 w = 8 * cint.sizeof(base) if base != 'bool' else 1
                 if self.o['zero_width'] and r.random() < 0.08:
